@@ -29,7 +29,7 @@ def run(ctx):
         mine=MINE,
         design_consts=ctx.q(
             dict(NT=2, NF=3, MaxT=1, BSet='{"U","S","X"}', HashOn="TRUE", MaxIO=1),
-            dict(NT=3, NF=3, MaxT=1, BSet='{"U","S","X","K"}', HashOn="TRUE", MaxIO=2),
+            dict(NT=2, NF=3, MaxT=2, BSet='{"U","S","X","K"}', HashOn="TRUE", MaxIO=2),
         ),
         plans=plans,
         api_reps=1,
